@@ -24,7 +24,7 @@ class CollProperty:
             typed = shape in coll.TYPED and rng.random() < 0.4
             if "TSD" in self.shapes and rng.random() < 0.12:
                 shape, typed = "TSD", True          # the authoring mutators of a dictionary (out[key], child outputs, erase, clear)
-            sc["writers"].append(coll.gen_writer(rng, wid, shape, end, typed=typed))
+            sc["writers"].append(coll.gen_writer(rng, wid, shape, end, typed=typed, composite_inv=getattr(self, "composite_inv", False)))
             sc["probes"].append(dict(id=wid * 10 + 1, src=wid, until=end - 1))
             sc["cons"].append(dict(id=wid * 10 + 2, src=wid, every=1))
             if rng.random() < 0.5:
@@ -61,6 +61,7 @@ class CollProperty:
 
 class C04(CollProperty):
     id = "C04"
+    composite_inv = True          # explicit invalidation also of bundles, lists, sets and dictionaries (flags only: C05 does not define their contents afterwards)
     quick_runs = 1500
     quick_budget_s = 150
     thorough_budget_s = 900
